@@ -205,6 +205,11 @@ func (f *Frame) callExtern(v ssa.Value, fn *ssa.Function, argVals []ssa.Value, a
 		}
 		f.ghostInc("#res")
 		f.setResults(v, mkRes())
+	case "reflect.TypeOf":
+		// a deterministic function of the interface value; nil exactly for a nil interface
+		fn := f.enc.declFun("rtypeof", []Sort{SIface}, SIface)
+		r := f.setVal(v, App(SIface, fn, args[0]))
+		f.enc.factAbout(r, Eq(Eq(App(SInt, "tag", r), Zero), Eq(App(SInt, "tag", args[0]), Zero)))
 	case "reflect.ValueOf":
 		// valid exactly for a non-nil interface argument
 		res := mkRes()
@@ -306,6 +311,8 @@ func externDoc(name string) string {
 	switch {
 	case name == "fmt.Errorf" || name == "errors.New":
 		return "returns a fresh non-nil error whose dynamic type is neither *Error nor Errors and whose chain holds no *Error"
+	case name == "reflect.TypeOf":
+		return "a deterministic function of the interface value (its dynamic type); nil exactly for a nil interface"
 	case name == "reflect.ValueOf" || name == "reflect.Zero" || name == "(reflect.Value).IsValid" || name == "(reflect.Value).Type":
 		return "reflect.Value modelled by validity and dynamic type: ValueOf(x) is valid iff x is a non-nil interface; Zero(t) is valid with type t; Type panics on an invalid Value"
 	case name == "(reflect.Value).Call":
